@@ -80,7 +80,7 @@ def crash_violation(rep, res, what=""):
     err = c.get("stderr", "")
     if kind == "sanitizer":
         key = sanitizer_key(err)
-        rep.viol("crash:sanitizer", "crash:" + key, what + "\n" + err[-3000:])
+        rep.viol("crash:sanitizer", "crash:" + key, what + "\n" + err[-3900:])
     elif kind == "exit_called":
         rep.viol("crash:exit", "crash:exit:" + c.get("detail", ""), what + " " + c.get("detail", ""))
     elif kind == "fatal":
